@@ -207,6 +207,9 @@ func (g *DirectedGraph) RemoveLine(fid, tid, id int64) {
 	if _, ok := g.nodes[tid]; !ok {
 		return
 	}
+	if _, ok := g.from[fid][tid][id]; !ok {
+		return
+	}
 
 	delete(g.from[fid][tid], id)
 	if len(g.from[fid][tid]) == 0 {
